@@ -64,6 +64,8 @@ type Ctx struct {
 	cutFix      string
 	asserted    map[*Term]bool
 	usedGhost   bool
+	tainted     map[string]bool
+	secretMemo  map[*Term]bool
 	nInstr      int64
 }
 
@@ -76,6 +78,7 @@ type contractFrame struct {
 	havoced []Pointer
 	rets    Value
 	called  bool
+	taint   bool
 }
 
 type Path struct {
@@ -364,6 +367,9 @@ func (c *Ctx) posOf(in ssa.Instruction) string {
 // callFunction runs fn (or its replacement / intrinsic) and returns the normal outcomes.
 func (c *Ctx) callFunction(fn *ssa.Function, args []Value, bind []Value, st *State, site ssa.Instruction) []Outcome {
 	name := fn.String()
+	if c.ctCheck && c.vartimeRe != nil && c.vartimeRe.MatchString(name) {
+		c.checkVartimeCall(st, fn, args, site)
+	}
 	if in, ok := intrinsics[name]; ok {
 		r := in(c, st, args, site)
 		return []Outcome{{st, r}}
